@@ -1,6 +1,7 @@
 // C02: inverse geodesic problem
 #include "geodcommon.hpp"
 #include "C02_series.hpp"
+#include "C02_full.hpp"
 using namespace gd; using namespace gv;
 
 struct Inv { double s12, azi1, azi2, a12, m12, M12, M21, S12; };
@@ -115,6 +116,9 @@ void gv::generate(const std::string& tier, uint64_t seed) {
     if (i < 3) sample(current_op());
     // pieces of the series solver (Lambda12 on this pair's reduced latitudes, Astroid) through the Lean model
     ginv::model_case(r, a, f, lat1, lat2, lon2 - lon1);
+    // the whole of GenInverse through the Lean model (series solver), and the bookkeeping model on the implementation's kernels (both solvers)
+    if (f < 1) { run("geninv_series", {hx(a), hx(f), hx(lat1), hx(lon1), hx(lat2), hx(lon2)}); stratum("model-geninv-series");
+      run("geninv_kern", {i % 2 ? "G" : "E", hx(a), hx(f), hx(lat1), hx(lon1), hx(lat2), hx(lon2)}); stratum(std::string("model-geninv-kern-") + (i % 2 ? "series" : "exact")); }
     // wrapper correspondence on inputs with exactly representable longitude differences (so the core sees the same problem)
     double g1 = grid(-90, 90), g2 = grid(-90, 90), h1 = grid(-180, 180) + 360 * r.irange(-1, 1), h2 = grid(-180, 180);
     if (k == 1) g1 = r.pick(std::vector<double>{90, -90, 0, -0.0}); if (k == 2) { g1 = 0; g2 = -0.0; } if (k == 3) h2 = h1 + 180; if (k == 5) { g2 = g1; h2 = h1; } if (k == 7) g2 = -g1;
